@@ -6,6 +6,10 @@
 // columns unchanged, added columns/indexes/constraints present, v1's still present] ->
 // records of the v2 type round-trip (Create; raw SQL and First) -> migrate(v2) [no DDL].
 //
+// Generated models (gen.go) may carry generated mix-ins whose fields are shadowed by fields of
+// the model (mixin.go), tag keys spelled with blanks / in another case, added fields declared
+// between old ones; every AutoMigrate call draws one of four call forms.
+//
 // One case in eight (grow.go) adds RELATIONS in v2 to populated tables, with the models passed in
 // random order / subsets / split calls and SQLite foreign key enforcement on for most of them, so
 // that the dependency order computed by ReorderModels is observable (a rebuilt child table whose
@@ -31,6 +35,14 @@
 //   - remigrate_v{1,2}_ddl:rebuild-without-change: a numeric default spelled differently from
 //     Go's rendering of the parsed value (default:1.0, default:0.0) makes every AutoMigrate
 //     rebuild the table (MigrateColumn compares the database's "1" with the tag text "1.0")
+//   - remigrate_v1_ddl:rebuild-drops-unique-of-shadowed-field: a mix-in field that is shadowed by a
+//     field of the model says `unique`, the owning field does not: CreateTable installs
+//     CONSTRAINT uni_<table>_<col> (ParseUniqueConstraints ranges over schema.Fields), the next
+//     AutoMigrate of the same model rebuilds the table to drop it (MigrateColumnUnique looks at the
+//     owning field)
+//   - v{1,2}_constraint_of_shadowed_field: a CHECK written only on a shadowed mix-in field is
+//     enforced by the table (not on the unchanged tree: ParseCheckConstraints ranges over
+//     FieldsByDBName)
 //   - multi_migrate_v2_error:child-listed-before-new-owner: AutoMigrate(&Letter{}, &Office{}) where
 //     letters exists with rows, offices does not, and Office declares a has-many to Letter: under
 //     _foreign_keys=1 the call fails with "no such table: main.offices" (ReorderModels reads the
@@ -45,6 +57,7 @@ import (
 	"strings"
 
 	"gorm.io/gorm"
+	"gorm.io/gorm/schema"
 
 	"verif/core"
 	"verif/recdrv"
@@ -150,6 +163,16 @@ func remigrationCause(ddl, before, after []string) (string, map[string]interface
 	switch {
 	case len(added) == 0 && len(removed) == 0:
 		return "rebuild-without-change", info
+	case len(added) == 0:
+		all := true
+		for _, f := range removed {
+			if !strings.HasPrefix(f, "CONSTRAINT `uni_") {
+				all = false
+			}
+		}
+		if all {
+			return "rebuild-drops-unique-constraint", info
+		}
 	case len(removed) == 0:
 		all := true
 		for _, f := range added {
@@ -213,9 +236,20 @@ func leavesOf(h *vdb.Handle, table string, t reflect.Type) []*leaf {
 	if err := stmt.ParseWithSpecialTableName(reflect.New(t).Interface(), table); err != nil {
 		panic(fmt.Sprintf("c20 harness: model does not parse: %v", err))
 	}
+	// a column declared twice (a mix-in's field and a field of the model) belongs to the field
+	// with the shortest path, the first one among equals; the other one is shadowed
+	owner := map[string]*schema.Field{}
+	for _, f := range stmt.Schema.Fields {
+		if f.DBName == "" {
+			continue
+		}
+		if o, ok := owner[f.DBName]; !ok || len(f.BindNames) < len(o.BindNames) {
+			owner[f.DBName] = f
+		}
+	}
 	var out []*leaf
 	for _, f := range stmt.Schema.Fields {
-		if f.DBName == "" || f.IgnoreMigration {
+		if f.DBName == "" || f.IgnoreMigration || owner[f.DBName] != f {
 			continue
 		}
 		l := &leaf{path: append([]string(nil), f.BindNames...), col: f.DBName, typ: f.FieldType, f: f, ord: len(out)}
@@ -227,9 +261,30 @@ func leavesOf(h *vdb.Handle, table string, t reflect.Type) []*leaf {
 
 func (x *hist) migrate(t reflect.Type, label string) (ddl []string, err error) {
 	mark := x.h.Rec.Mark()
-	err = x.tx().AutoMigrate(reflect.New(t).Interface())
+	// call form, drawn per call: the four are the same request
+	form := "db.Table(%q).AutoMigrate(&%s{})"
+	switch x.c.R.Intn(10) {
+	case 0, 1:
+		form = "db.Table(%q).Migrator().AutoMigrate(&%s{})"
+		err = x.tx().Migrator().AutoMigrate(reflect.New(t).Interface())
+	case 2:
+		form = "db.Table(%q).AutoMigrate(%s{})"
+		err = x.tx().AutoMigrate(reflect.New(t).Elem().Interface())
+	case 3:
+		form = "tx := db.Table(%q).Begin(); tx.AutoMigrate(&%s{}); tx.Commit() [Rollback on error]"
+		tx := x.tx().Begin()
+		if err = tx.Error; err == nil {
+			if err = tx.AutoMigrate(reflect.New(t).Interface()); err != nil {
+				tx.Rollback()
+			} else {
+				err = tx.Commit().Error
+			}
+		}
+	default:
+		err = x.tx().AutoMigrate(reflect.New(t).Interface())
+	}
 	ddl = ddlOf(x.h.Rec.Since(mark))
-	x.op("db.Table(%q).AutoMigrate(&%s{})  -> err=%v, %d schema-changing statements", x.table, label, err, len(ddl))
+	x.op(form+"  -> err=%v, %d schema-changing statements", x.table, label, err, len(ddl))
 	return
 }
 
@@ -455,7 +510,7 @@ func sortedCopy(xs []string) []string {
 
 // checkObjects verifies that the expected columns / indexes / unique / check constraints exist
 // (indexes by catalogue, constraints by behaviour inside a rolled-back transaction).
-func (x *hist) checkObjects(m *model, ls []*leaf, v2 bool) (missing []string) {
+func (x *hist) checkObjects(m *model, ls []*leaf, v2 bool) (missing, foreign []string) {
 	ti := x.inspect()
 	for _, l := range ls {
 		if !ti.cols[l.col] {
@@ -486,6 +541,39 @@ func (x *hist) checkObjects(m *model, ls []*leaf, v2 bool) (missing []string) {
 	colLeaf := map[string]int{}
 	for k, l := range ls {
 		colLeaf[l.col] = k
+	}
+	// a CHECK written only on a shadowed field of a mix-in is no constraint of the model: a row
+	// that violates it (and nothing the owning fields declare) must be accepted
+	for _, e := range m.shadowChk {
+		if e.V2 && !v2 {
+			continue
+		}
+		i := x.rows + 1
+		args := make([]interface{}, len(ls))
+		ph := make([]string, len(ls))
+		for k, l := range ls {
+			args[k] = rawArg(l, mk(l, i, l.wrap == "deleted", false))
+			if l.col == e.Col && e.Bad != nil {
+				args[k] = e.Bad
+			}
+			ph[k] = "?"
+		}
+		tx, err := x.h.SQL.Begin()
+		if err != nil {
+			panic(err)
+		}
+		_, err = tx.Exec("INSERT INTO `"+x.table+"` ("+quoteCols(ls)+") VALUES ("+strings.Join(ph, ",")+")", args...)
+		tx.Rollback()
+		x.c.Inc("shadowed_check_probes")
+		if err != nil {
+			if !strings.Contains(err.Error(), "CHECK constraint failed") {
+				panic(fmt.Sprintf("c20 harness: shadowed-check probe failed differently: %v", err))
+			}
+			foreign = append(foreign, fmt.Sprintf("check (%s) is declared only by a shadowed mix-in field, the field owning column %s declares none, yet a row violating it is refused: %v", e.Expr, e.Col, err))
+		}
+	}
+	if len(foreign) > 0 {
+		return
 	}
 	try := func(mod func(a, b []lval)) (errA, errB error) {
 		// probe rows are rolled back: their row numbers are reused (keeps values inside int8)
@@ -594,7 +682,12 @@ func (x *hist) run(m *model, name1, name2 string) {
 		x.violation("migrate_v1_error", map[string]interface{}{"error": err.Error()})
 		return
 	}
-	if miss := x.checkObjects(m, x.l1, false); len(miss) > 0 {
+	miss, foreign := x.checkObjects(m, x.l1, false)
+	if len(foreign) > 0 {
+		x.violation("v1_constraint_of_shadowed_field", map[string]interface{}{"not_of_the_model": foreign})
+		return
+	}
+	if len(miss) > 0 {
 		x.violation("v1_object_missing", map[string]interface{}{"missing": miss})
 		return
 	}
@@ -603,6 +696,11 @@ func (x *hist) run(m *model, name1, name2 string) {
 	for k := 0; k < nRaw; k++ {
 		_, vals := x.newRow(x.l1, false, true)
 		if err := x.rawInsert(x.l1, vals); err != nil {
+			if strings.Contains(err.Error(), "constraint failed") {
+				// the values satisfy everything the model declares
+				x.violation("v1_table_rejects_row", map[string]interface{}{"error": err.Error(), "row": fmt.Sprint(vals)})
+				return
+			}
 			panic(fmt.Sprintf("c20 harness: raw insert failed: %v", err))
 		}
 		x.remember(x.l1, vals)
@@ -628,6 +726,7 @@ func (x *hist) run(m *model, name1, name2 string) {
 	}
 	if len(ddl) > 0 {
 		cause, info := remigrationCause(ddl, ddlBefore, x.masterSQL())
+		cause = x.refineCause(m, cause, info)
 		x.violation("remigrate_v1_ddl:"+cause, map[string]interface{}{"schema_changing_statements": ddl, "table_ddl_before": ddlBefore, "cause": info,
 			"expected": "no CREATE/ALTER/DROP/RENAME statement: the table was created from this very model"})
 	}
@@ -651,7 +750,12 @@ func (x *hist) run(m *model, name1, name2 string) {
 		x.violation("v2_data_changed", d)
 		return
 	}
-	if miss := x.checkObjects(m, x.l2, true); len(miss) > 0 {
+	miss, foreign = x.checkObjects(m, x.l2, true)
+	if len(foreign) > 0 {
+		x.violation("v2_constraint_of_shadowed_field", map[string]interface{}{"not_of_the_model": foreign, "schema_changing_statements": ddl2, "table_ddl_before": ddlBefore})
+		return
+	}
+	if len(miss) > 0 {
 		sig := "v2_object_missing"
 		onlyUnique := true
 		for _, s := range miss {
@@ -717,6 +821,7 @@ func (x *hist) run(m *model, name1, name2 string) {
 	}
 	if len(ddl) > 0 {
 		cause, info := remigrationCause(ddl, ddlBefore, x.masterSQL())
+		cause = x.refineCause(m, cause, info)
 		x.violation("remigrate_v2_ddl:"+cause, map[string]interface{}{"schema_changing_statements": ddl, "table_ddl_before": ddlBefore, "cause": info,
 			"expected": "no CREATE/ALTER/DROP/RENAME statement: this model was migrated just before"})
 	}
@@ -724,6 +829,27 @@ func (x *hist) run(m *model, name1, name2 string) {
 	if after := x.dump(x.l2); !same(before2, after) {
 		x.violation("remigrate_v2_data", diff(before2, after))
 	}
+}
+
+// refineCause: a rebuild that only drops unique constraints which no column-owning field declares
+// (they came from `unique` on a shadowed mix-in field) is a class of its own.
+func (x *hist) refineCause(m *model, cause string, info map[string]interface{}) string {
+	if cause != "rebuild-drops-unique-constraint" || m == nil || len(m.shadowUniq) == 0 {
+		return cause
+	}
+	removed, _ := info["definition_fragments_removed"].([]string)
+	for _, f := range removed {
+		ok := false
+		for _, e := range m.shadowUniq {
+			if strings.HasPrefix(f, "CONSTRAINT `uni_"+x.table+"_"+e.Col+"` ") {
+				ok = true
+			}
+		}
+		if !ok {
+			return cause
+		}
+	}
+	return "rebuild-drops-unique-of-shadowed-field"
 }
 
 // checkOldRows reads every row created under v1 through the v2 model and compares v1's fields.
@@ -784,6 +910,13 @@ func runGenerated(c *core.Ctx) {
 	c.Logf("MODEL table=%s\n  v1: %s\n  v2: %s", m.table, strings.Join(m.describe(false), "\n      "), strings.Join(m.describe(true), "\n      "))
 	x.run(m, "V1", "V2")
 	c.Inc("histories_generated")
+	if m.respelled > 0 {
+		c.Inc("models_with_respelled_tag_keys")
+	}
+	if nm, ns := m.mixinInfo(); nm > 0 {
+		c.Inc("models_with_generated_mixin")
+		c.Add("shadowed_mixin_fields", ns)
+	}
 	if !x.failed {
 		f1, f2 := m.features()
 		if len(f2) > 0 {
@@ -824,6 +957,9 @@ var Engine = &core.Engine{
 	Level: "exploration",
 	Rule: "per case a fresh in-memory SQLite database and the history migrate(v1) -> 1..5 rows by raw SQL + 0..2 by gorm Create -> migrate(v1) -> migrate(v2) -> Create of v2 records (single, slice) read back by raw SQL and First -> migrate(v2); " +
 		"9 of 16 cases: model types generated with reflect.StructOf (5 key shapes; 1..7 fields of 33 Go kinds incl. pointers, sql.Null*, a custom Scanner/Valuer, a json serializer field, embedded structs with prefix; tags column, default (literal, quoted, spaced, empty, null, function), not null, size, type, precision, comment, unique, check (named/unnamed), index (plain, named, sort, length, comment, unique, class, collate, expression, partial), uniqueIndex, composite indexes with priorities, permissions, autoCreate/UpdateTime); v2 = v1 + 0..4 fields + 0..3 index/unique/check tags on existing fields + composite indexes spanning old and new fields; " +
+		"1 of 3 generated models carries a generated MIX-IN (engine/c20/mixin.go): a struct type built with reflect.StructOf, embedded anonymously or through a field tagged `embedded` (no prefix), part of v1 or added in v2, declared at a random position (before or after the fields it collides with), with 0..2 columns of its own (whole tag grammar) and 0..2 fields whose column is ALSO declared by a field of the model itself (same Go name, or a name of its own with a column tag; the same or another Go type of the class; key fields too, with or without primaryKey) and which are therefore SHADOWED; a shadowed field carries tags its owner lacks: check (named/unnamed; satisfied by the data, or violated by every row of the workload), not null, default, unique, a named index, size, comment; 1 of 4 such models has a second mix-in that may also collide with the own columns of the first (equal depth: the mix-in declared first owns the column); demanded: columns, constraints and records are those of the OWNING fields - after v1 and after v2 a row that violates only a shadowed field's check is accepted (probe in a rolled-back transaction), rows, Create, round trip and old rows go through the owning fields, re-migration issues no DDL; " +
+		"1 of 2 generated models has its tag KEYS respelled the way gorm reads them (schema.ParseTagSetting trims and upper-cases keys): blanks in front of a key (i.e. after the `;` separator, or after the `,` of an index option), a blank between key and colon, upper / lower case, an empty piece at the end of the tag - e.g. `gorm:\"size:64; index\"`, `gorm:\"NOT NULL; uniqueIndex :ux_a, Priority:2;\"`; values are never touched; 1 of 2 models declares (some of) the fields added in v2 between the old ones; " +
+		"every AutoMigrate call of the single-table histories draws its form: db.Table(t).AutoMigrate(&T{}) (6 of 10), db.Table(t).Migrator().AutoMigrate(&T{}) (2), the model passed by value (1), tx := db.Table(t).Begin(); tx.AutoMigrate(&T{}); tx.Commit() (1); " +
 		"1 of 8: static types with anonymous embedding (gorm.Model, soft delete); 1 of 8: a related family (belongs-to, has-many, many2many, self reference, has-one added in v2) migrated as a random permutation/subset through ReorderModels (demanded besides columns/indexes: the foreign keys of users, and those that live in other tables - pets and profs for the has-many/has-one of User, the join table user_langs); " +
 		"1 of 8: a family whose RELATIONS are added in v2 to tables that exist and hold rows (engine/c20/grow.go): v1 = books -> shelves plus a random subset of unrelated authors/publishers/tags tables with rows; v2 = one of three Book variants on table books (belongs-to only; has-many + many2many only; two belongs-to to one parent + has-many + many2many + unique index) with Author gaining a belongs-to to Publisher (dependency chain of depth 2) and a check, new tables reviews/book_tags; drawn per case: which referenced tables already exist, which models are passed and in which order (Book always; the others 2/3 each, otherwise reached as dependencies only; an unrelated model at times), one AutoMigrate call or the list split over two calls, db.AutoMigrate or db.Migrator().AutoMigrate, foreign key enforcement of the connections (_foreign_keys=1, 2 of 3), DisableForeignKeyConstraintWhenMigrating (1 of 8); demanded: no error, v1 cells unchanged, v1 objects kept, columns/indexes/foreign keys (pragma_foreign_key_list)/checks of every passed model and the tables its belongs-to/many2many point to exist, a v2 record with nested new associations round-trips (raw SQL and First+Preload), v2 again in another order issues no DDL; " +
 		"1 of 16: PARALLEL RELATIONS (engine/c20/multi.go, models engine/c20/multi): one owner (people) with several has-one/has-many relations to the SAME child (letters), so the child table carries one foreign key per relation, all to the same parent table; v1 = one of 5 owner/child pairs (no relation; one has-many; two has-many created with the table, either declaration order; the child belongs to the owner) plus an unrelated offices table at times, rows by raw SQL; v2 = one of 8 owners on the same tables whose relations include v1's (1..4 relations to letters: has-many and has-one mixed, new relations declared before or after the old ones, ON DELETE/ON UPDATE actions, a constraint with a name of its own, two more has-many to a table parcels that is new in v2; belongs-to and has-many in both directions between the two models over different columns or over the same column) and, 1 of 2, a second owner Office whose has-many to letters has the same relation NAME (Sent) as Person's, its table new or existing; drawn per case: argument order, one call or two (owners first, cut anywhere), db.AutoMigrate or db.Migrator().AutoMigrate, _foreign_keys=1 (2 of 3), DisableForeignKeyConstraintWhenMigrating (1 of 8); demanded: no error, v1 cells unchanged, every column/index, for EVERY relation of a passed owner its foreign key in the child table (pragma_foreign_key_list: column, parent table, ON DELETE, ON UPDATE) after v1 and after v2, under enforcement a dangling reference in each such column is refused, old rows read back through the v2 models, a v2 owner created with 1..2 children under every relation round-trips (raw SQL per foreign key column and First+Preload of every relation; a child with a nested belongs-to parent), v1 again / v2 again in another order issue no DDL; " +
@@ -838,6 +974,9 @@ var Engine = &core.Engine{
 		"growing-relations family: the foreign key of a has-many is declared by the owner (Book.Reviews) but lives in the child table; a separate earlier AutoMigrate(&Review{}) call that has not seen Book cannot know it and the later AutoMigrate(&Book{}) does not touch reviews - the statement does not fix who adds it, so when the argument list is split over two calls Review is never in an earlier call than Book; has-many children that are not passed are not expected to exist; v2 columns are demanded only of models that were passed (for tables reached as dependencies only their existence is demanded, and nested associations in the round-trip record are used only for passed models)",
 		"with DisableForeignKeyConstraintWhenMigrating no foreign key is demanded (nor its absence); IgnoreRelationshipsWhenMigrating is not generated",
 		"parallel-relations family: as in the growing family the foreign key of a has-one/has-many is known only to a call that has seen the owner, so the child (letters, parcels) is never passed in an earlier call than an owner and is never passed without the owner; foreign keys are compared by (column, parent table, ON DELETE, ON UPDATE), never by constraint name, and additional foreign keys on the same column are tolerated (v1's belongs-to constraint next to v2's has-many constraint over the same column: the statement does not say whether they are one constraint); every v2 relation repeats the tags of its v1 version; constraint:- , polymorphic relations, composite and non-primary references, and relations inside embedded structs are not generated; the owner tables gain only a plain column and an index in v2 (a constraint added to a parent table that is referenced by rows makes the external SQLite dialector's table rebuild fail under enforcement, see above); every reference in the raw rows points to an existing person",
+		"mix-ins: a column declared by several fields belongs to the field with the shortest path, the first one among equals (gorm's rule in schema.Parse, Go's rule for promoted fields); the harness computes the owner itself and sets / reads only owning fields; `uniqueIndex` and index tags with the default name are not generated on a shadowed field (gorm builds an index for every field, shadowed or not, on creation and on migration alike; the statement does not say whether an index written on a shadowed field belongs to the model - a NAMED plain index is generated there, nothing is demanded of it), and no uniqueness probe is made on a column whose shadowed field says `unique`; a mix-in is the same type in v1 and v2, collides only with fields that exist whenever it does, is not pointer-embedded and has no prefix when it collides; two mix-ins keep their order",
+		"only tag KEYS are respelled: values are literal to gorm (`size: 64`, `index: name`, `priority: 2`, `size:64 ;` are other values) and are never written with blanks",
+		"gorm.Config{PrepareStmt:true} is not generated: the external SQLite dialector's ColumnTypes takes the column list from `SELECT * FROM t LIMIT 1`, and database/sql + go-sqlite3 report for a cached prepared statement the column list of BEFORE an ALTER TABLE ADD (reproduced without gorm), so the AutoMigrate after one that added a column fails with `duplicate column name` - cause outside /repo",
 		"a DryRun session (Session{DryRun:true}.AutoMigrate) is outside the statement (it fixes what a migration adds and preserves, not that a dry run leaves the database alone) and is not generated",
 	},
 	Cases: func(tier string) int {
